@@ -1002,6 +1002,39 @@ func ruleRootRegex(c *Ctx) {
 						enforced = true
 					}
 				}
+				// the answer is handed to a boolean helper (`if refused(matches) {`): the edge on which the helper's
+				// answer implies "did not match" is the one that must not reach a positive answer
+				hc, ok := rr.(*ssa.Call)
+				if !ok || hc.Call.StaticCallee() == nil || !p.inModule(hc.Call.StaticCallee()) {
+					continue
+				}
+				h := hc.Call.StaticCallee()
+				var prm *ssa.Parameter
+				for k, a := range hc.Call.Args {
+					if a == ssa.Value(ex) && k < len(h.Params) {
+						prm = h.Params[k]
+					}
+				}
+				if prm == nil {
+					continue
+				}
+				for _, r3 := range referrers(hc) {
+					iff, ok := r3.(*ssa.If)
+					if !ok {
+						continue
+					}
+					for _, pol := range []bool{true, false} {
+						if calleeImpliedFacts(p, hc, pol)[condFact{prm, false}] {
+							succ := iff.Block().Succs[0]
+							if !pol {
+								succ = iff.Block().Succs[1]
+							}
+							if pos, _ := canReachPositive(succ, iff.Block()); !pos {
+								enforced = true
+							}
+						}
+					}
+				}
 			}
 		}
 		c.check(enforced, p.fname(scorer), "a failed root regex refuses the root", p.ipos(i), "the false outcome cannot reach a positive answer", "the regex result is computed but does not decide")
@@ -1095,6 +1128,45 @@ func ruleC02i(c *Ctx) {
 
 // absenceFact: the fact says "the previous selection step found nothing".
 func absenceFact(p *Program, f condFact) string {
+	// the test lives in a boolean helper (`if nothingFound(candidates) {`): what the helper's answer implies about
+	// its parameters is said of the arguments
+	if call, isCall := f.Cond.(*ssa.Call); isCall {
+		h := call.Call.StaticCallee()
+		if h == nil || !p.inModule(h) {
+			return ""
+		}
+		argOf := func(v ssa.Value) ssa.Value {
+			prm, ok := strip(v).(*ssa.Parameter)
+			if !ok {
+				return nil
+			}
+			for k, q := range h.Params {
+				if q == prm && k < len(call.Call.Args) {
+					return call.Call.Args[k]
+				}
+			}
+			return nil
+		}
+		for g := range calleeImpliedFacts(p, call, f.Pol) {
+			gb, ok := g.Cond.(*ssa.BinOp)
+			if !ok {
+				continue
+			}
+			if a := argOf(gb.X); a != nil {
+				if w := absenceFact(p, condFact{synthBinOp(gb.Op, a, gb.Y), g.Pol}); w != "" {
+					return w
+				}
+			}
+			if lc, ok := strip(gb.X).(*ssa.Call); ok && isBuiltinCall(lc, "len") && g.Pol {
+				if a := argOf(lc.Call.Args[0]); a != nil {
+					if n, ok := constInt(gb.Y); ok && ((gb.Op == token.EQL && n == 0) || (gb.Op == token.LEQ && n == 0) || (gb.Op == token.LSS && n == 1)) {
+						return "empty " + typeShort(a.Type())
+					}
+				}
+			}
+		}
+		return ""
+	}
 	bo, ok := f.Cond.(*ssa.BinOp)
 	if !ok || !f.Pol {
 		return ""
